@@ -19,6 +19,7 @@ import random
 import vcheck as vc
 
 PROP = "C16"
+FID_LENIENT = "F-C16-argjson-lenient"
 
 
 # ---------------------------------------------------------------------------
@@ -36,6 +37,28 @@ def V(x):
     if isinstance(x, list):
         return {"t": "arr", "a": [V(e) for e in x]}
     raise ValueError(x)
+
+
+def unV(v):
+    t = v.get("t")
+    if t == "null":
+        return None
+    if t == "bool":
+        return v["b"]
+    if t == "num":
+        return v["n"]
+    if t == "big":
+        n = int("".join(map(str, v["d"])))
+        return -n if v["neg"] else n
+    if t == "frac":
+        return v["n"] / v["d"]
+    if t == "str":
+        return "".join(chr(c) for c in v["s"])
+    if t == "arr":
+        return [unV(e) for e in v["a"]]
+    if t == "obj":
+        return {"".join(chr(c) for c in k): unV(e) for k, e in v["o"]}
+    return "<%s>" % json.dumps(v)
 
 
 def lit_text(x):
@@ -117,7 +140,7 @@ def strip(e):
 
 
 def rand_query(r, depth, atoms=None):
-    atoms = atoms or [DOT, INPUT, INPUTS, EMPTY, INPUT, INPUTS, lit(7), lit("k")]
+    atoms = atoms or [DOT, DOT, INPUT, INPUTS, INPUT, INPUTS, EMPTY, lit(7), lit("k")]
     if depth <= 0 or r.random() < 0.25:
         return r.choice(atoms)
     k = r.randrange(8)
@@ -130,7 +153,7 @@ def rand_query(r, depth, atoms=None):
     if k == 5:
         return tryc(rand_query(r, depth - 1, atoms), r.choice(["h", "E"]))
     if k == 6:
-        return limit(r.choice([0, 1, 2, 3]), rand_query(r, depth - 1, atoms))
+        return limit(r.choice([0, 1, 1, 2, 2, 3]), rand_query(r, depth - 1, atoms))
     return drain(rand_query(r, depth - 1, atoms))
 
 
@@ -546,6 +569,18 @@ def case_args(r):
     return c
 
 
+def case_lenient(r):
+    """--argjson / --jsonargs with a text that is not exactly one JSON value (known finding F-C16-argjson-lenient)"""
+    c = Case("lenient")
+    t = r.choice(["1 2", "", " ", "[1] x", "null null", '{"a":1}}', "1,2"])
+    c.short(["n"]).short(["c"])
+    if r.random() < 0.5:
+        c.long("argjson").word("x").word(t).query(collect(comma(var(c.wid("x")), var("ARGS"))))
+    else:
+        c.query(var("ARGS")).long("jsonargs").word("7").word(t)
+    return c
+
+
 def stream_cases(texts, r, cuts_all, sample=None):
     """the StreamMC universe on the real binary: --stream on the whole text and cut after every byte"""
     out = []
@@ -632,12 +667,23 @@ def check_cases(rep, work, vh, gojq, cases, tag, counters):
             rep.count("traces_validated_against_impl")
             if v["n"] > 0 or v["nerr"] > 0:
                 rep.nontrivial([c.shell(), list(c.stdin), sorted((k, list(b)) for k, b in c.fs.items())])
-            if c.fam != "mcstream" or i % 97 == 0:
-                rep.sample({"cmd": c.shell(), "stdin": c.stdin.decode("utf-8", "replace")[:80], "stdout": x["stdout"][:120],
-                            "errors": x["nerr"], "exit": x["exit"]})
+            if counters.get("sampled:" + c.fam, 0) < 2 and (v["n"] > 0 or v["nerr"] > 0) and len(x["stdout"]) > 8:
+                bump("sampled:" + c.fam)
+                rep.sample({"cmd": c.shell(), "stdin": c.stdin.decode("utf-8", "replace")[:80],
+                            "files": {c.words[k].decode(): b.decode("utf-8", "replace")[:60] for k, b in c.fs.items()},
+                            "stdout": x["stdout"][:160], "errors": x["nerr"], "exit": x["exit"]}, limit=12)
         elif v["v"] == "oom":
             rep.count("out_of_model")
             bump("oom:" + v.get("why", "?"))
+        elif v["v"] == "lenient":
+            # genuine deviation from the requirement, of exactly the class of F-C16-argjson-lenient (see c16.md)
+            what = "`%s`: --argjson/--jsonargs text that is not ONE JSON value is accepted (stdout %r, exit %s)" % (c.shell(), x["stdout"][:80], x["exit"])
+            if any(k["id"] == FID_LENIENT for k in rep.known):
+                rep.known_finding(FID_LENIENT, what)
+            else:
+                if "finding_candidates" not in rep.cov:
+                    vc.log("FINDING-CANDIDATE (no open entry %s in known_findings.json yet): %s" % (FID_LENIENT, what))
+                rep.count("finding_candidates")
         else:
             mism.append((i, v))
     if mism:
@@ -653,7 +699,8 @@ def check_cases(rep, work, vh, gojq, cases, tag, counters):
             e = v.get("exp", {})
             what = ("`%s` stdin=%r files=%r: real exit=%s errors=%s stdout=%r%s; specification exit=%s errors=%s outputs=%s" % (
                 c.shell(), c.stdin.decode("utf-8", "replace"), files, x["exit"], x["nerr"], x["stdout"][:300],
-                " CRASH " + x["stderr"][:200] if x["crash"] else "", e.get("exit"), e.get("nerr"), json.dumps(e.get("out"))[:400]))
+                " CRASH " + x["stderr"][:200] if x["crash"] else "", e.get("exit"), e.get("nerr"),
+                json.dumps([unV(o) for o in e.get("out", [])], ensure_ascii=False)[:400]))
             rep.violation(what, {"case": case, "actual": {k: x.get(k) for k in ("out", "nerr", "exit", "outbad", "crash", "stdout", "stderr")},
                                  "expected": e})
     return counters
@@ -726,6 +773,8 @@ def run(tier, seed, replay):
         for _ in range(n_args):
             cases.append(case_args(r))
         cases += random_stream_cuts(r, n_cut)
+        for _ in range(6 if quick else 40):
+            cases.append(case_lenient(r))
         rep.cov["invocations_by_family"] = {}
         for c in cases:
             rep.cov["invocations_by_family"][c.fam] = rep.cov["invocations_by_family"].get(c.fam, 0) + 1
